@@ -25,7 +25,7 @@ func repoRoot() string {
 	return "/repo"
 }
 
-var c11Keep = regexp.MustCompile(`^(verifhook\.At|append\(|len\(|panic\(|errors\.New|WrapMessage\(|[A-Za-z_][A-Za-z0-9_]*(\.[A-Za-z_][A-Za-z0-9_]*)*\.(Lock|Unlock|RLock|RUnlock|Load|Store|CompareAndSwap|LoadAndDelete|Delete|Send|Recv|Close|Terminate|IsTerminated|Encode|Decode|GetProcess|DeliveryUserMessage|DeliverySystemMessage|packMessage|activation|send|detachStream|detachStreamOf|closeStream|attachStream|onDeliveryMessage|onBatchDeliveryMessage|unknownReceiverRedirect)\()`)
+var c11Keep = regexp.MustCompile(`^(verifhook\.At|append\(|len\(|panic\(|errors\.New|WrapMessage\(|[A-Za-z_][A-Za-z0-9_]*(\.[A-Za-z_][A-Za-z0-9_]*)*\.(Lock|Unlock|RLock|RUnlock|Load|Store|CompareAndSwap|LoadAndDelete|Delete|Send|Recv|Close|Terminate|IsTerminated|Encode|Decode|GetProcess|GracefulStop|CloseSend|Range|DeliveryUserMessage|DeliverySystemMessage|packMessage|activation|send|detachStream|detachStreamOf|closeStream|attachStream|onDeliveryMessage|onBatchDeliveryMessage|unknownReceiverRedirect)\()`)
 
 // function -> (file, receiver)
 var c11Funcs = [][3]string{
@@ -42,6 +42,11 @@ var c11Funcs = [][3]string{
 	{"onDeliveryMessage", "shared.go", "Shared"},
 	{"onBatchDeliveryMessage", "shared.go", "Shared"},
 	{"streaming", "shared.go", "Shared"},
+	{"attachStream", "shared.go", "Shared"},
+	{"Close", "shared.go", "Shared"},
+	{"clientStream.Send", "shared_stream.go", "clientStream"},
+	{"serverStream.Send", "shared_stream.go", "serverStream"},
+	{"serverStream.Close", "shared_stream.go", "serverStream"},
 }
 
 type c11FactsRunner struct{}
@@ -53,7 +58,11 @@ func (c11FactsRunner) Step(t []string) string {
 	}
 	for _, f := range c11Funcs {
 		if f[0] == t[1] {
-			s, err := facts.Skeleton(filepath.Join(repoRoot(), "engine/prc", f[1]), f[2], f[0], c11Keep)
+			fn := f[0]
+			if i := strings.IndexByte(fn, '.'); i >= 0 {
+				fn = fn[i+1:]
+			}
+			s, err := facts.Skeleton(filepath.Join(repoRoot(), "engine/prc", f[1]), f[2], fn, c11Keep)
 			if err != nil {
 				return "err:" + strings.ReplaceAll(err.Error(), " ", "_")
 			}
